@@ -358,7 +358,16 @@ impl<'a> Gen<'a> {
             let s = gen::handle_str(&mut self.rng);
             match Handle::<T>::from_str(&s) {
                 Ok(h) => return (h, s),
-                Err(_) => self.refused_handle += 1,
+                Err(_) => {
+                    self.refused_handle += 1;
+                    // A handle that is valid by RFC 8183 (1..=255 characters of the
+                    // permitted alphabet, judged by the harness) can still be put
+                    // into a message through the public unchecked constructor; the
+                    // message must then round-trip like any other.
+                    if handle_is_protocol_valid(&s) {
+                        return (Handle::new(s.as_str().into()), s);
+                    }
+                }
             }
         }
     }
@@ -1218,7 +1227,18 @@ pub fn run(ctx: &mut Ctx) {
             if src.len() > 40_000 && k > 2 {
                 continue;
             }
-            let (name, mutant) = match mrng.below(20) {
+            let (name, mutant) = match mrng.below(23) {
+                20..=22 if !pool.docs.is_empty() => {
+                    // an element of another message of the same protocol grafted in
+                    let same: Vec<usize> = (0..pool.docs.len()).filter(|i| pool.docs[*i].0.name() == src_kind.name()).collect();
+                    if same.is_empty() {
+                        mutate::tag_mutation(&mut mrng, src)
+                    } else {
+                        let donor = &pool.docs[*mrng.pick(&same)].2;
+                        mutate::graft(&mut mrng, src, donor)
+                    }
+                }
+                20..=22 => mutate::tag_mutation(&mut mrng, src),
                 0..=7 => mutate::byte_mutation(&mut mrng, src),
                 8..=16 => mutate::tag_mutation(&mut mrng, src),
                 17 => {
